@@ -14,7 +14,7 @@ PROPS = {
     "C01": {
         "level": "proof",
         "units": ["angle", "jd", "civil", "astro", "top", "raw"],
-        "rule": "falsifier: oracle hour angle of the Sun at the reported Dhuhr (raw hour, UT = local - gmt) within 10 s; all latitudes incl. poles, GMT within 6 h of lon/15, 9 methods, one case in five on 18-24 March (RA wrap); non-trivial = distinct (date, lat, lon)",
+        "rule": "falsifier: oracle hour angle of the Sun at the reported Dhuhr (the computed hour wrapped into the requested civil date as reported, UT = local - gmt) within 10 s; all latitudes incl. poles, GMT within 6 h of lon/15, 9 methods, one case in five on 18-24 March (RA wrap), one in seven with the clock at GMT+-12 (branch zone-end); non-trivial = distinct (date, lat, lon)",
         "trusted": ["independent ephemeris harness/src/oracle.rs ((i) Meeus ch.25, (ii) frozen VSOP87 snapshot with nutation as published; self-test (i) vs (ii) < 0.02 deg)",
                     "agreement of truncated VSOP87 with the sky and the envelope hypotheses of residual_bound are not theorems"],
         "assumptions": COMMON_ASSUME + ["Delta-T ignored by library and oracle"],
@@ -50,7 +50,7 @@ PROPS = {
     "C06": {
         "level": "proof",
         "units": ["raw", "adj", "top"],
-        "rule": "falsifier: validity of each of the five events vs the oracle's altitude range of the day [-90+|lat+dec|, 90-|lat-dec|], 0.05 deg exemption, |lat|<=89.5 (half of the cases above 45 deg); non-trivial = distinct (event that does not occur, date, lat)",
+        "rule": "falsifier: validity of each of the five events vs the oracle's altitude range of the day [-90+|lat+dec|, 90-|lat-dec|], 0.05 deg exemption, |lat|<=89.5 (half of the cases above 45 deg); one random case in fifty and every handed-over date are also evaluated at the latitudes where an event starts or stops existing, +-0.06..0.35 deg around each boundary (branch edge-probe); non-trivial = distinct (event that does not occur, date, lat)",
         "trusted": ["reachability is proved on the model's own declination of the date"],
         "assumptions": COMMON_ASSUME,
     },
